@@ -308,7 +308,7 @@ def hist_C09(tier):
 
 
 def hist_C16(tier):
-    n = 40 if tier == 'quick' else 800
+    n = 30 if tier == 'quick' else 800
 
     def gen(rng, path):
         for h in range(n):
@@ -326,6 +326,10 @@ def hist_C16(tier):
             # exhaustive (offset, limit) over {0..m+2}^2
             grid(m + 3)
             ops.append({'op': 26, 'fk': 0, 'fa': 1, 'fb': 0, 'off': 10**6, 'lim': 10**6})
+            # the extremes of the integer type: offset + limit beyond 2^63 is still "from offset to the end"
+            for off in (0, 1, 2, m, m + 1, 2**63 - 1, 2**62):
+                for lim in (2**63 - 1, 2**63 - 2, 2**62, 2**40, 2**32, 2**31):
+                    ops.append({'op': 26, 'fk': rng.choice([0, 0, fk]), 'fa': fa, 'fb': fb, 'off': off, 'lim': lim})
             # listings interleaved with changes of the id set: the same number of removals and new ids between two
             # listings (a listing must never depend on an earlier one), metadata updates, then pages again
             q, dim = ops[0]['q'], ops[0]['dim']
